@@ -170,6 +170,71 @@ def run(ctx):
                 sl = backward_slice(cab, [op_place(a[1])])
                 ok = any(bi in nd for bi, _ in sl.call_sites) and not (sl.binops - {'Not'})
         ctx.ob('3s3 full-clean-truncates-all-dirty-logs', 'K4-provenance', cab.path, 'clean_all_logs asks Log::clean_logs for exactly num_dirty_logs() truncations (no log is kept)', ok and bool(cl), '')
+    # an administration call rewrites the metadata: it must carry over the format version the database HAS (key hashing of uniform
+    # columns and the part layout differ between versions 4..8; a bumped version makes the untouched columns unreadable)
+    pre = F.body('db::Db::precheck_column_operation')
+    if pre is not None:
+        fl = set()
+        for bi in pre.normal_blocks():
+            for st in pre.blocks[bi]['s']:
+                if st['k'] == 'assign':
+                    for pl in ([st['r'].get('p')] if st['r'].get('p') else []) + [op_place(a) for a in st['r'].get('a', []) if op_place(a)]:
+                        fl |= set(e for e in pl[1:] if isinstance(e, str) and e.startswith('.'))
+        ctx.ob('2v0 precheck-reads-stored-version', 'K4-provenance', pre.path, 'the precheck (open + drop) hands back the format version of the opened database', '.DbInner.db_version' in fl or '.Metadata.version' in fl, str(sorted(f for f in fl if 'version' in f)))
+    for fn in ('db::Db::add_column', 'db::Db::drop_last_column', 'db::Db::reset_column'):
+        b = ctx.body(fn)
+        if not b:
+            continue
+        ws = [bi for bi, t in b.calls() if bi in b.normal_blocks() and call_matches(t, ['re:Options::write_metadata(_file)?(_with_version)?$'])]
+        ctx.ob('2v1 admin-metadata-write %s' % fn, 'anchor', fn, 'the administration call rewrites the metadata', len(ws) >= 1, str(ws))
+        for s2 in ws:
+            t = b.term(s2)
+            nm = t.get('r') or t.get('f') or ''
+            ok = False
+            det = 'written through %s, which stamps CURRENT_VERSION' % nm.split('::')[-1]
+            if nm.endswith('_with_version') and len(t['a']) > 3:
+                v = t['a'][3]
+                if op_place(v) is not None:
+                    sl = backward_slice(b, [op_place(v)])
+                    ok = any(c.endswith('precheck_column_operation') for c in sl.calls) and not any(str(c.get('un', '')).endswith('CURRENT_VERSION') for c in sl.consts if isinstance(c, dict))
+                    det = 'the version argument does not come from the opened database' if not ok else ''
+                else:
+                    det = 'the version argument is a constant'
+            ctx.ob('2v admin-keeps-format-version %s' % fn, 'K4-provenance', fn, 'the metadata is written back with the format version obtained from the precheck open, not with CURRENT_VERSION', ok, det, b.loc(s2))
+    # an administration call that is given column options checks them before it touches anything: Db::open asserts
+    # Options::is_valid, so accepted-but-invalid options leave a database that panics on every later open (and every
+    # administration call starts with an open)
+    for fn in ('db::Db::add_column', 'db::Db::reset_column'):
+        b = ctx.body(fn)
+        if not b:
+            continue
+        newopt = {'db::Db::add_column': 2, 'db::Db::reset_column': 3}[fn]      # the parameter holding the new column options
+        iv = [x for x in lib.sites_reaching(b, ['options::ColumnOptions::is_valid'])
+              if any(op_place(a) is not None and newopt in backward_slice(b, [op_place(a)]).params for a in b.term(x)['a'])]
+        eff = lib.sites_reaching(b, ['re:Options::write_metadata(_file)?(_with_version)?$', 'db::Db::remove_column_files', 'column::Column::drop_files'])
+        lib.precedes(ctx, '2w new-options-validated-first %s' % fn, b, iv, eff, 'the new column options are checked with ColumnOptions::is_valid before files are deleted or the metadata is rewritten')
+        for i, s2 in enumerate(eff):
+            if iv:
+                lib.result_guards(ctx, '2w2 effects-only-if-valid %s #%d' % (fn, i), b, iv, s2, 'deleting files / rewriting the metadata depends on the outcome of the validity check')
+    # column ids are u8: a 257th column would alias column 0 (`c as ColId`), and dropping it would delete column 0's files
+    ac = ctx.body('db::Db::add_column')
+    if ac:
+        ws = lib.sites_reaching(ac, ['re:Options::write_metadata(_file)?(_with_version)?$'])
+        ok = False
+        for s2 in ws:
+            for pr in lib.guard_predicates(ac, s2):
+                if pr['const'] in (255, 256) and ('.Options.columns' in pr['fields'] or any(c.endswith('::len') for c in pr['calls'])):
+                    ok = True
+        ctx.ob('2x column-count-bounded-by-ColId', 'K7-narrowing-cast', ac.path, 'add_column refuses to go beyond the 256 columns a u8 column id can name', ok, 'no comparison of the column count with 255/256 guards the metadata write')
+    ov = F.body('options::Options::is_valid')
+    if ov is not None:
+        cs = [st['r']['a'] for blk in ov.blocks for st in blk['s'] if st['k'] == 'assign' and st['r']['k'] == 'bin' and st['r']['op'] in ('Gt', 'Ge', 'Lt', 'Le')]
+        def has_bound(x):
+            if lib.const_of(ov, x) in (255, 256):
+                return True
+            return op_place(x) is not None and any(isinstance(c, dict) and c.get('i') in (255, 256) for c in backward_slice(ov, [op_place(x)]).consts)
+        ok = any(any(has_bound(x) for x in ops) for ops in cs)
+        ctx.ob('2x2 options-with-too-many-columns-invalid', 'K7-narrowing-cast', ov.path, 'Options::is_valid (asserted by every open) rejects more than 256 columns', ok, 'no comparison with 255/256 in Options::is_valid')
     shared.metadata_replaced_atomically(ctx, '2m')    # add_column / drop_last_column / reset_column rewrite the metadata of a populated database
     # ------------------------------------------------ 4. administration touches only its column
     df = ctx.body('column::Column::drop_files')
